@@ -569,6 +569,31 @@ def _push_ctor(t):
     return t
 
 
+def _reduce_applied(t):
+    """after a helper's function-valued parameters were replaced by the arguments: `(f)(x)` with f a function named at the call is the call
+    `f(x)`, with f a closure written at the call it is the closure's body"""
+    def red(n):
+        if n[0] == "call" and n[1] == "@call" and n[2]:
+            f, args = n[2][0], n[2][1:]
+            if f[0] == "def":
+                return ("call", f[1], list(args))
+            if f[0] == "closure" and f[2] == len(args):
+                d = f[1]
+
+                def beta(x):
+                    if x[0] == "cparam":
+                        if x[1] == d:
+                            return args[x[2]] if x[2] < len(args) else None
+                        if x[1] > d:
+                            return ("cparam", x[1] - 1, x[2])
+                    if x[0] == "closure" and x[1] > d:
+                        return ("closure", x[1] - 1, x[2], x[3])
+                    return None
+                return _shadow_safe(f[3], d, beta)
+        return None
+    return rewrite(t, red)
+
+
 def _untry_option(t):
     """value of an Option-returning helper whose term uses `x?`: each `x?` (innermost first, in order of occurrence) becomes the condition
     `let Some(_) = x` with the payload in its place; the value is `conditions.then(|| v)` for `Some(v)`, else `if conditions { t } else { None }`.
@@ -803,6 +828,11 @@ def _mk_try(x):
         return x[2][0]
     if x[0] == "if" and (_tail_ok(x[2]) or _tail_ok(x[3])):
         return ("if", x[1], _mk_try(x[2]), _mk_try(x[3]))
+    if x[0] == "call" and x[1] == "Err" and len(x[2]) == 1:
+        return ("ret", x)            # Err(e)?  leaves the function with the error (up to the error conversion)
+    if x[0] == "match" and all(g is None for _p, g, _b in x[2]) and any(_tail_ok(b) or (b[0] == "call" and b[1] == "Err" and len(b[2]) == 1) for _p, _g, b in x[2]):
+        # (match v { A => fallible, B => Ok(b), C => Err(e) })?   ==   match v { A => fallible?, B => b, C => return Err(e) }
+        return ("match", x[1], [(p, g, b if _diverges(b) else _mk_try(b)) for p, g, b in x[2]])
     return ("try", x)
 
 
@@ -2120,7 +2150,7 @@ class Norm:
             if n[0] == "closure" and shift:
                 return ("closure", n[1] + shift, n[2], n[3])
             return None
-        r = _unreturn(rewrite(t, subst))
+        r = _unreturn(_reduce_applied(rewrite(t, subst)))
         if _has_ret(r):
             return None          # a `return` of the helper that is not in tail position would read as a return of the caller
         if peel_ty(fn.get("output", "")).startswith(("std::option::Option<", "core::option::Option<")):
@@ -2688,7 +2718,7 @@ class Norm:
                     return _apply(inner[2][1], ("try", inner[2][0]))          # o.map(f)?  ==  f(o?)
                 if inner[0] == "call" and inner[1] == "then" and len(inner[2]) == 2:
                     return ("early", [(_not(inner[2][0]), ("ret", _NONE))], inner[2][1])      # c.then(|| v)?  ==  if !c { return None }  v
-                return sc if sc[0] == "try" else ("try", sc)
+                return _mk_try(sc[1] if sc[0] == "try" else sc)
             fl = as_for_loop(e)
             if fl is not None:
                 return _mk_for(self._t(fl[1]), self._t(fl[2]))
